@@ -172,10 +172,10 @@ SCRIPTS['C17'] = [
 ]
 SCRIPTS['C18'] += [
     sc('f-sms-rc-500', ['auth', 'sms', 'lock', 'logout'],
-       [login('u2', 2), ev('SmsValidate', rc=2, g=1), ev('Logout', method='DELETE'), login('u2', 2), ev('SmsValidate', rc=2, g=1)],
+       [login('u2', 2), ev('SmsValidate', rc=2, g=2), ev('Logout', method='DELETE'), login('u2', 2), ev('SmsValidate', rc=2, g=2)],
        seed=T1, errWrites=True),
     sc('f-sms-rc-silent', ['auth', 'sms', 'logout'],
-       [login('u2', 2), ev('SmsValidate', rc=2, g=1), login('u2', 2, b='b2'), ev('SmsValidate', 'b2', rc=2, g=1)], seed=T1),
+       [login('u2', 2), ev('SmsValidate', rc=2, g=2), login('u2', 2, b='b2'), ev('SmsValidate', 'b2', rc=2, g=2)], seed=T1),
     sc('f-totp-rc-silent', ['auth', 'totp', 'logout'],
        [login('u1', 1), ev('TotpValidate', rc=1, g=1), login('u1', 1, b='b2'), ev('TotpValidate', 'b2', rc=1, g=1)], seed=T1),
     sc('f-cookie-500', ['auth', 'remember', 'logout'],
@@ -189,3 +189,33 @@ SCRIPTS['C18'] += [
        [ev('RecoverStart', pid='u1'), ev('RecoverEnd', tok=1, pw=3), ev('TotpValidate', tok=1, code=1), probe()],
        seed=T1, recoverLogin=True, errWrites=True),
 ]
+
+
+def _sweep():
+    pwj = ['wrong', 'empty', 'hash', 'prefix', 'nul', 'long']
+    tokj = ['garbage', 'empty', 'flip:0', 'flip:255', 'flip:256', 'flip:511', 'trunc', 'ext', 'trail', 'splice', 'stored', 'zero', 'missing']
+    out = []
+    # password logins with every rejecting variant against: a normal account, a password-less (OAuth2) account, nobody
+    steps = [ev('OAuthStart', prov='pa'), ev('OAuthCallback', prov='pa', tok=1, outcome='x'), ev('Logout', method='DELETE')]
+    for j in pwj:
+        for pid in ('o_pa_x', 'u1', 'g1'):
+            steps += [login(pid, -1, junk=j), probe()]
+    out.append(sc('sweep-passwords', ['auth', 'oauth2', 'lock', 'logout'], steps, lockAfter=50))
+    # one-time passwords: every variant against an account with codes, one whose last code was just used, one without any
+    steps = [ev('OtpLoginPost', pid='u1', tok=1), ev('Logout', method='DELETE')]
+    for j in ['garbage', 'empty', 'hash']:
+        for pid in ('u1', 'u2', 'g1'):
+            steps += [ev('OtpLoginPost', pid=pid, tok=-1, junk=j), probe()]
+    steps += [ev('OtpLoginPost', pid='u2', tok=1), ev('OtpLoginPost', pid='u1', tok=2), probe()]   # other account's codes
+    out.append(sc('sweep-otps', ['auth', 'otp', 'logout'], steps, seed=[U('u1', 1, otps=1), U('u2', 2, otps=2)]))
+    # mailed tokens: every rejecting variant while genuine tokens of two accounts are outstanding
+    steps = [ev('RestartConfirm', 'none', pid='u1'), ev('RestartConfirm', 'none', pid='u2'), ev('RecoverStart', pid='u1'), ev('RecoverStart', pid='u2')]
+    for j in tokj:
+        steps += [ev('ConfirmGet', tok=-1, junk=j), ev('RecoverEnd', tok=-1, pw=3, junk=j), probe()]
+    steps += [ev('ConfirmGet', tok=1), ev('ConfirmGet', tok=1), ev('RecoverEnd', tok=1, pw=3), ev('RecoverEnd', tok=1, pw=4), ev('RecoverEnd', tok=2, pw=3), probe()]
+    out.append(sc('sweep-mailed-tokens', ['auth', 'confirm', 'recover', 'logout'], steps, recoverLogin=True))
+    return out
+
+
+SCRIPTS['C01'] = _sweep()
+SCRIPTS['C05'] = [_sweep()[2]]
